@@ -34,6 +34,8 @@ def _calls(e: ast.AST, suffix: str) -> bool:
 
 def run(ch: Checker) -> None:
     prog = ch.prog
+    ch.rule('C07.11', 'HttpProtocolHandler.shutdown delivers what is still queued in every execution mode: on every path on which the client buffer is not known to be empty, the pending '
+                      'output is flushed before the socket is shut down / closed (teardown after an exception in a handler reaches shutdown() with output pending)', 1)
     ch.rule('C07.9', 'nobody sets SO_LINGER on a socket (expected 0 sites): close() with linger 0 discards output the kernel has not delivered yet', 1)
     ch.rule('C07.1', 'HttpProtocolHandler.handle_events: every `return True` is justified by an empty client buffer on the path, by the value of handle_writables '
                      '(client write failure / final flush done), or by plugin.write_to_descriptors (exempt: upstream write failure); results of handle_readables and '
@@ -296,6 +298,27 @@ def run(ch: Checker) -> None:
             badf = ('select() reported the client writable but this iteration of the drain loop does not call self.work.flush()', p.describe(16))
     ch.check(badf is None and nf > 0, 'C07.3', fl, 'drain loop can progress', 'registered for EVENT_WRITE before the loop; flush on every ready iteration (%d path(s))' % nf,
              badf[0] if badf else 'no path enters the drain loop', witness=badf[1] if badf else None)
+
+    # ---------------- C07.11 pending output at shutdown, whatever the mode
+    n11 = 0
+    per_mode: Dict[str, Tuple[bool, List[str]]] = {}
+    for p in fpaths(gs):
+        if p.exit_kind != 'return' or p.coarse:
+            continue
+        fd = allfacts(p)
+        if fd.get(HASBUF) is False:
+            continue
+        n11 += 1
+        flushed = any(_calls(st, 'self._flush') or _calls(st, 'self.work.flush') for i, st in p.stmts())
+        label = 'with a per-connection selector (threaded mode)' if fd.get('self.selector') is True else 'without a per-connection selector (threadless mode)' if fd.get('self.selector') is False else 'selector not tested'
+        prev = per_mode.get(label, (True, []))
+        per_mode[label] = (prev[0] and flushed, prev[1] if prev[0] is False else (p.describe(16) if not flushed else []))
+    for label, (okm, wit) in sorted(per_mode.items()):
+        ch.check(okm, 'C07.11', sd, 'pending output at shutdown ' + label, 'flushed before the socket is closed',
+                 'shutdown() closes the client socket %s without flushing what is still queued for the client: when a handler raises while output is pending (e.g. a malformed follow-up request '
+                 'arriving while a large response is still being delivered) the work is torn down at once and the client sees end-of-stream in the middle of the response' % label, witness=wit)
+    if not per_mode:
+        ch.bad('C07.11', sd, 'pending output at shutdown', 'no path of shutdown() with possibly pending output found')
 
     # ---------------- C07.4
     idle_predicate_check(ch, 'C07.4')
